@@ -1,4 +1,5 @@
 //! C14: the scaled value a sketch reports is the one it was created with.
+use sourmash::cmd::ComputeParameters;
 use sourmash::encodings::HashFunctions;
 use sourmash::manifest::Record;
 use sourmash::prelude::*;
@@ -77,8 +78,60 @@ fn gen(a: &Args) {
         for op in ["new", "newtree", "ds", "dsn", "rec", "sel", "seln"] {
             o.op(&format!("{} {}", op, s));
         }
+        // the same consumers on sketches that carry a num next to the scaled value (what
+        // ComputeParameters' default num_hashes = 500 produces): larger than what they hold, and 1
+        let num = *r.pick(&[1u64, 2, 500, 1000, u32::MAX as u64]);
+        for op in ["new", "newtree", "ds", "dsn", "rec", "sel", "seln"] {
+            o.op(&format!("{} {} {}", op, s, num));
+        }
+        // through the glue: ComputeParameters -> Signature::from_params -> sketches()[0] (fp), its
+        // manifest record (fprec), a from_params signature made at 1, fed a sequence and selected at s
+        // (fpsel); num_hashes left at its default (d) or set
+        let nh = *r.pick(&["d", "d", "0", "1", "500", "20000"]);
+        let mol = *r.pick(&["dna", "dna", "protein", "dayhoff", "hp"]);
+        let tr = r.below(2);
+        for op in ["fp", "fprec", "fpsel"] {
+            o.op(&format!("{} {} {} {} {}", op, s, nh, mol, tr));
+        }
     }
 }
+
+/// the scaled values every MinHash sketch of a signature reports
+fn scaleds(sig: &Signature) -> Vec<u64> {
+    sig.sketches()
+        .iter()
+        .map(|s| match s {
+            Sketch::MinHash(mh) => mh.scaled(),
+            Sketch::LargeMinHash(mh) => mh.scaled(),
+            _ => 0,
+        })
+        .collect()
+}
+
+fn one(v: Vec<u64>, want: usize) -> String {
+    if v.len() == want && v.iter().all(|&x| x == v[0]) {
+        v[0].to_string()
+    } else {
+        format!("sketches {:?}", v)
+    }
+}
+
+fn params(s: u64, nh: &str, mol: &str, track: bool) -> ComputeParameters {
+    let mut p = ComputeParameters::builder().build();
+    p.set_ksizes(vec![21, 30]);
+    p.set_dna(mol == "dna");
+    p.set_protein(mol == "protein");
+    p.set_dayhoff(mol == "dayhoff");
+    p.set_hp(mol == "hp");
+    p.set_scaled(s);
+    if nh != "d" {
+        p.set_num_hashes(nh.parse().unwrap());
+    }
+    p.set_track_abundance(track);
+    p
+}
+
+const SEQ: &[u8] = b"GATTACAGATTACCAGGTTTACGATCGATCGGCTAGCTAGCATCGACTAGCTACGATCGATCGACTAGCTAGCTAGCATCGATCAGCTACGACTAGC";
 
 fn sig_with(mh: KmerMinHash) -> Signature {
     let mut sig = Signature::default();
@@ -88,20 +141,51 @@ fn sig_with(mh: KmerMinHash) -> Signature {
 
 fn step(_: &mut (), ws: &[&str]) -> String {
     let n = |i: usize| -> u64 { ws[i].parse().unwrap() };
+    // optional third word of the consumer ops: the num the sketch carries next to its scaled
+    let num: u32 = match ws[0] {
+        "new" | "newtree" | "ds" | "dsn" | "rec" | "sel" | "seln" => ws.get(2).map(|w| w.parse().unwrap()).unwrap_or(0),
+        _ => 0,
+    };
     match ws[0] {
+        "fp" | "fprec" | "fpsel" => {
+            let track = ws[4] == "1";
+            match ws[0] {
+                "fp" => one(scaleds(&Signature::from_params(&params(n(1), ws[2], ws[3], track))), 2),
+                "fprec" => {
+                    let mut sig = Signature::from_params(&params(n(1), ws[2], ws[3], track));
+                    // (an unnamed signature with several sketches cannot be recorded: name() falls
+                    // back to Signature::md5sum, which is unimplemented!() for more than one sketch)
+                    sig.set_name("fp");
+                    let recs = Record::from_sig(&sig, "loc");
+                    one(recs.iter().map(|r| *r.scaled()).collect(), 2)
+                }
+                _ => {
+                    let mut sig = Signature::from_params(&params(1, ws[2], ws[3], track));
+                    if let Err(e) = sig.add_sequence(SEQ, false) {
+                        return format!("err {:?}", e);
+                    }
+                    let mut sel = Selection::default();
+                    sel.set_scaled(n(1) as u32);
+                    match sig.select(&sel) {
+                        Ok(sig) => one(scaleds(&sig), 2),
+                        Err(e) => format!("err {:?}", e),
+                    }
+                }
+            }
+        }
         "case" => "ok".into(),
         "mh" => max_hash_for_scaled(n(1)).to_string(),
         "sc" => scaled_for_max_hash(n(1)).to_string(),
         "rt" => scaled_for_max_hash(max_hash_for_scaled(n(1))).to_string(),
-        "new" => KmerMinHash::new(n(1), 21, HashFunctions::Murmur64Dna, 42, false, 0)
+        "new" => KmerMinHash::new(n(1), 21, HashFunctions::Murmur64Dna, 42, false, num)
             .scaled()
             .to_string(),
-        "newtree" => KmerMinHashBTree::new(n(1), 21, HashFunctions::Murmur64Dna, 42, false, 0)
+        "newtree" => KmerMinHashBTree::new(n(1), 21, HashFunctions::Murmur64Dna, 42, false, num)
             .scaled()
             .to_string(),
         "ds" => {
             // created at 1, downsampled to s
-            let mh = KmerMinHash::new(1, 21, HashFunctions::Murmur64Dna, 42, false, 0);
+            let mh = KmerMinHash::new(1, 21, HashFunctions::Murmur64Dna, 42, false, num);
             match mh.downsample_scaled(n(1)) {
                 Ok(d) => d.scaled().to_string(),
                 Err(e) => format!("err {:?}", e),
@@ -109,9 +193,9 @@ fn step(_: &mut (), ws: &[&str]) -> String {
         }
         "dsn" => {
             // created at 1, holding one hash far below every ceiling, downsampled to s
-            let mut mh = KmerMinHash::new(1, 21, HashFunctions::Murmur64Dna, 42, false, 0);
+            let mut mh = KmerMinHash::new(1, 21, HashFunctions::Murmur64Dna, 42, false, num);
             mh.add_hash(7);
-            let mut t = KmerMinHashBTree::new(1, 21, HashFunctions::Murmur64Dna, 42, false, 0);
+            let mut t = KmerMinHashBTree::new(1, 21, HashFunctions::Murmur64Dna, 42, false, num);
             t.add_hash_with_abundance(7, 1);
             match (mh.downsample_scaled(n(1)), t.downsample_scaled(n(1))) {
                 (Ok(d), Ok(dt)) if d.scaled() == dt.scaled() => d.scaled().to_string(),
@@ -122,13 +206,25 @@ fn step(_: &mut (), ws: &[&str]) -> String {
         "seln" => {
             // a signature with two non-empty sketches (created at 1 and at s), selected at s:
             // every delivered sketch reports s
-            let mut a = KmerMinHash::new(1, 21, HashFunctions::Murmur64Dna, 42, false, 0);
+            let mut a = KmerMinHash::new(1, 21, HashFunctions::Murmur64Dna, 42, false, num);
             a.add_hash(7);
             let mut b = KmerMinHash::new(n(1), 21, HashFunctions::Murmur64Dna, 42, false, 0);
             b.add_hash(7);
             let mut sig = Signature::default();
             sig.push(Sketch::MinHash(a));
             sig.push(Sketch::MinHash(b));
+            if num != 0 {
+                // ... and a tree sketch created at 1 with the same num
+                let mut t = KmerMinHashBTree::new(1, 21, HashFunctions::Murmur64Dna, 42, true, num);
+                t.add_hash_with_abundance(7, 3);
+                sig.push(Sketch::LargeMinHash(t));
+                let mut sel = Selection::default();
+                sel.set_scaled(n(1) as u32);
+                return match sig.select(&sel) {
+                    Ok(sig) => one(scaleds(&sig), 3),
+                    Err(e) => format!("err {:?}", e),
+                };
+            }
             let mut sel = Selection::default();
             sel.set_scaled(n(1) as u32);
             match sig.select(&sel) {
@@ -151,14 +247,14 @@ fn step(_: &mut (), ws: &[&str]) -> String {
             }
         }
         "rec" => {
-            let mh = KmerMinHash::new(n(1), 21, HashFunctions::Murmur64Dna, 42, false, 0);
+            let mh = KmerMinHash::new(n(1), 21, HashFunctions::Murmur64Dna, 42, false, num);
             let sig = sig_with(mh);
             let recs = Record::from_sig(&sig, "loc");
             recs[0].scaled().to_string()
         }
         "sel" => {
             // a sketch created at 1, selected at s: reports s
-            let mh = KmerMinHash::new(1, 21, HashFunctions::Murmur64Dna, 42, false, 0);
+            let mh = KmerMinHash::new(1, 21, HashFunctions::Murmur64Dna, 42, false, num);
             let sig = sig_with(mh);
             let mut sel = Selection::default();
             sel.set_scaled(n(1) as u32);
